@@ -122,6 +122,7 @@ func init() {
 	// ulid: arbitrary but pairwise distinct ids (the library's contract)
 	intrinsics["github.com/titpetric/vuego/internal/ulid.String"] = func(fr *frame, a []value) value {
 		fr.i.ulidCounter++
+		fr.i.stubStateAccess(fr, ulidPkgPath)
 		return fmt.Sprintf("01ZZVERIF%017d", fr.i.ulidCounter)
 	}
 	intrinsics["(runtime.errorString).Error"] = func(fr *frame, a []value) value { return a[0] }
